@@ -18,19 +18,20 @@ def inputOfJson (j : Json) : Except String Input := do
   let choices ← cellsListOfJson (← j.getObjVal? "choices")
   let cols ← getStrList j "choices_cols"
   let survey ← cellsListOfJson (← j.getObjVal? "survey")
+  let surveyCols ← getStrList j "survey_cols"
   let extHeader ← getStrList j "ext_header"
   let extRows ← match j.getObjVal? "ext_rows" with
     | .ok (.arr a) => (do let r ← a.toList.mapM pairList; pure (some r))
     | _ => pure none
   pure { root := getStrD j "root" "data", choices, choiceCols := cols, allowDup := optStr j "allow_dup",
-         survey, extHeader, extRows }
+         survey, surveyCols, extHeader, extRows }
 
 def optJ (o : Option Str) : Json := match o with | some s => jstr s | none => Json.null
 
 def gridToJson (g : List (List Str)) : Json := Json.arr (g.map fun r => Json.arr (r.map jstr).toArray).toArray
 
 def instToJson (i : Inst) : Json :=
-  Json.mkObj [("id", jstr i.name), ("src", optJ i.src), ("kind", jstr i.kind),
+  Json.mkObj [("id", jstr i.name), ("src", optJ i.src), ("kind", jstr i.kind), ("xml", jstr (instText i)),
     ("items", if i.kind = c!"choice" then Json.arr (i.items.map pairsToJson).toArray else Json.null)]
 
 def selToJson (s : SelObs) : Json :=
